@@ -8,11 +8,14 @@ CHECKS = {}
 CHECKS["C34"] = dict(
     modules=["addrrecord"], level="exploration", driver="addrdrv",
     design_ref="5 (C34)",
-    technique="symbolic signature algebra in TLA+ (Sig/Recover/OverlayOf); TLC checks that the statement follows from the "
-              "ParseAddress mechanism on every record of the universe, enumerates honest records x single-field mutations, "
-              "and judges what aurora.ParseAddress, handshake Handle/Handshake and routetab's underlay replies did with each",
-    level_text="TLC enumerates 3 keys x 3 underlays x 2 network ids x mutation classes (underlay, overlay, network id, signature "
-               "byte/length/signer) for five acceptance paths; real secp256k1 records are built by the driver, the recorded "
+    technique="symbolic signature algebra in TLA+ (Sig/Recover/OverlayOf) over records whose fields are byte strings with a length "
+              "and whose signed payload is the concatenation of the fields; TLC checks that the statement follows from the "
+              "ParseAddress mechanism on every record of the universe (and that only the length-exact overlay comparison pins the "
+              "field boundary), enumerates honest records x single-field mutations x boundary shifts x self-signed claims of a "
+              "foreign overlay, and judges what aurora.ParseAddress, handshake Handle/Handshake and routetab's underlay replies did with each",
+    level_text="TLC enumerates 3 keys x 3 underlays x 2 network ids x mutation classes (underlay, overlay bytes and length, network id, "
+               "signature byte/length/signer, underlay/overlay boundary moved with the signed bytes unchanged, records signed by the key "
+               "for an overlay of another length / another key) for five acceptance paths; real secp256k1 records are built by the driver, the recorded "
                "accept/reject is judged by AddrRecordTrace.tla against Accept()",
     level_note="exploration: TLA+ is enumerator and oracle, there is no state machine; unforgeability of secp256k1/keccak is an "
                "assumption (Recover of a damaged signature yields a key outside the universe); package libp2p itself does not "
@@ -25,11 +28,17 @@ CHECKS["C34"] = dict(
     corrupt=corrupt_field("handle", "accepted", lambda e: (not e["accepted"]) if e["mut"] in ("sig_byte", "none") else None),
     nontrivial=lambda s: any(o["mut"] != "none" for o in s["ops"]),
     rule="one scenario per (acceptance path, key, underlay, network id): the honest record and every single-field mutation of it "
-         "(quick: 5 signature byte positions, 5 overlay damages, 2 underlay damages, network id checked on another id / an id differing only in the upper 32 bits / in bit 0, 31, 32, 63; thorough: all 65/32/8 positions and all 64 network-id bits); "
+         "(quick: 5 signature byte positions, 8 overlay damages incl. lengths 31/33/74 around the genuine 32 bytes, 2 underlay damages, network id checked on another id / an id differing only in the upper 32 bits / in bit 0, 31, 32, 63; thorough: all 65/32/8 positions and all 64 network-id bits), "
+         "the 6 boundary shifts (underlay cut at 0/1/2 components or 1 byte before its end with the rest put in front of the overlay; "
+         "the overlay's first 1/31 bytes appended to the underlay) and 8 (thorough 12) records the key signed itself for an overlay that is not its own; "
          "distinct = distinct (path, record descriptor list); non-trivial = contains at least one mutated record",
     exhaustive=dict(quick=True, thorough=True),
     assumptions=["secp256k1 signatures are unforgeable and keccak/sha3 collision-free (symbolic Recover)",
                  "byte damage is xor with one seeded bit (recovery id: 27<->28)",
+                 "keys 1, 2 are seeded; key 3 is the first key of the seeded stream whose overlay on network id 10 starts with a zero byte "
+                 "(its 31-byte tail equals the overlay as a number / as a zero-padded hash)",
+                 "field boundaries are moved only at the model's cut points (multiaddr component ends, 1 byte before the underlay's end, "
+                 "overlay bytes 1 and 31); distinct base strings share no bytes",
                  "64-bit network ids are carried symbolically (<<base, variant>>) and concretised by the driver (10 and 0x0102030405060708, xor 2^k / xor 0x8000000100000000)",
                  "the (r, n-s, v^1) twin of a signature counts as a signature made by the same key: its acceptance is a note, not a verdict",
                  "an honest underlay reply for another overlay than the one asked for is a note (the statement speaks about the record, not the request)"],
@@ -97,21 +106,26 @@ def _c36_corrupt(evs):
 CHECKS["C36"] = dict(
     modules=["keystore"], level="exploration", driver="keystoredrv",
     design_ref="5 (C36)",
-    technique="password-box model in TLA+ (one action per keystore.Service method) checked by TLC; TLC-generated "
-              "create/get/export/import histories replayed on keystore/file and keystore/mem; recorded results judged by KeystoreTrace.tla",
-    level_text="TLC exhausts the box model (2-3 names, 2-3 passwords, 1-2 exported blobs) and generates class scenarios over "
+    technique="password-box model in TLA+ (one action per keystore.Service method, caller-supplied keys named by the number of "
+              "leading zero bytes of their secret scalar) checked by TLC; TLC-generated "
+              "create/get/import-private/export/import histories replayed on keystore/file and keystore/mem; recorded results judged by KeystoreTrace.tla",
+    level_text="TLC exhausts the box model (2-3 names, 2-3 passwords, 1-2 exported blobs, 2-1 caller-supplied keys) and generates class scenarios over "
                "name/password classes (empty, 1 char, unicode, 64 chars, nested path / case variant), a cross-name export->import "
-               "transfer, and random histories; each runs on the file keystore (real scrypt) and the in-memory keystore",
+               "transfer, caller-supplied keys with 0/1/2 (thorough: 3, 16, 31) leading zero bytes stored with ImportPrivateKey, read back, "
+               "exported and imported under another name, and random histories; each runs on the file keystore (real scrypt) and the in-memory keystore",
     level_note="exploration: scrypt/AES-CTR/keccak are not modelled (a blob opens only with its password); keys are numbered in "
                "order of first appearance; export/import are executed and judged on the file keystore only (the in-memory keystore "
                "panics with 'implement me' by design; the statement's 'both' covers the first clause only); Exists is a conformance note",
-    design=[dict(spec="MCKeystore.tla", cfg="MCKeystore.cfg", workers=4, timeout=900, env_thorough={"VERIF_THOROUGH": "1"})],
+    design=[dict(spec="MCKeystore.tla", cfg="MCKeystore.cfg", workers=4, timeout=2400, env_thorough={"VERIF_THOROUGH": "1"})],
     gen=dict(
         quick=[dict(mode="exh", spec="KeystoreGen.tla", cfg="KeystoreGen.cfg", name="classes", env={"VERIF_FAMILY": "classes"}),
+               dict(mode="exh", spec="KeystoreGen.tla", cfg="KeystoreGen.cfg", name="given", env={"VERIF_FAMILY": "given"}),
                dict(mode="sim", spec="KeystoreGen.tla", cfg="KeystoreGen.cfg", name="life", env={"VERIF_FAMILY": "life"},
                     depth=6, num=12, max=6)],
         thorough=[dict(mode="exh", spec="KeystoreGen.tla", cfg="KeystoreGen.cfg", name="classes",
                        env={"VERIF_FAMILY": "classes", "VERIF_THOROUGH": "1"}),
+                  dict(mode="exh", spec="KeystoreGen.tla", cfg="KeystoreGen.cfg", name="given",
+                       env={"VERIF_FAMILY": "given", "VERIF_THOROUGH": "1"}),
                   dict(mode="sim", spec="KeystoreGen.tla", cfg="KeystoreGen.cfg", name="life", env={"VERIF_FAMILY": "life"},
                        depth=9, num=120, max=150)]),
     judge=dict(spec="KeystoreTrace.tla", cfg="KeystoreTrace.cfg"),
@@ -119,10 +133,14 @@ CHECKS["C36"] = dict(
     nontrivial=lambda s: sum(1 for o in s["ops"] if o["op"] == "key") >= 2,
     rule="classes: per (name class, password class) create / ask again / other password / exists / export with other and right "
          "password / import / ask again (quick: 5 diagonal pairs, thorough: 25); transfer: export from one name, import under "
-         "another; life: TLC -simulate histories starting with two creations; each scenario runs on both implementations; "
+         "another; given: per leading-zero class (quick 0, 1, 2; thorough + 3, 16, 31) create / ImportPrivateKey / ask again / other "
+         "password / export / import under another name / ask there / wrong-password and missing-name ImportPrivateKey / a second "
+         "given key replaces the first; life: TLC -simulate histories (incl. ImportPrivateKey of 1- and 2-zero-byte keys) starting with two creations; each scenario runs on both implementations; "
          "distinct = distinct operation list; non-trivial = at least two Key requests",
     exhaustive=dict(quick=False, thorough=False),
-    assumptions=["private keys are compared by value and numbered in order of first appearance",
+    assumptions=["private keys are compared by value and numbered in order of first appearance (caller-supplied keys: 100 + leading zero bytes)",
+                 "keys the keystore creates itself come from crypto/rand: their leading bytes are not controlled (a leading zero byte has "
+                 "probability 1/256 per creation); the class is reached deterministically only through ImportPrivateKey / ImportKey",
                  "name classes map to '', 'a', a unicode string, 64 characters and 'd/e'; names that alias the same file path are not generated",
                  "malformed key files (hostile JSON, e.g. dklen < 32) are outside the statement and not generated"],
 )
